@@ -19,14 +19,54 @@ CLAIMED = {
             "Lean theorems (BB/Props/C13.lean) for ALL tables with 1..26 states x 1..10 colours and any subset of slots undefined: parsing the standard text puts every instruction at its row/column slot (from_slots), text -> table -> text is the identity (show_from), table -> text -> table is the identity, and every instruction / slot / state token round-trips. Model tied to the real tcompile/show_comp/read_*/show_* by the correspondence check on every token, random tables (judged against the generator's own table) and a malformed stream.",
             "Trusted: Lean kernel + standard axioms; hand-written model BB/Model/Instrs.lean to the extent the correspondence samples it; Lean compiler for the driver; vlib orchestration; rustc. Guard stated in the theorems: one-digit colours, letters A..Z (beyond that the real code stops round-tripping).",
             "Lean 4 proof (round-trip laws) + differential correspondence", "5/C13"),
-    "C04": ("exploration",
-            "Correspondence of the Lean model of reason.rs (whole cant_reach) with the real py_cant_halt/blank/spin_out over exhaustive 2x2, slices or all of 3x2/2x3, random and named programs on a depth ladder; every 'refuted' answer of the real code judged by an L0 run; violations attributed to findings F1/F2 by counterfactual re-run of the model with repair switches. Proof level pending BB/Props/C04.",
-            "Trusted: Lean compiler for the driver, vlib orchestration, rustc; oracle budget (5e3 quick / 5e4 thorough base steps).",
-            "Lean 4 model + differential correspondence + L0 oracle + counterfactual attribution", "5/C04"),
-    "C07": ("exploration",
-            "Correspondence of the Lean model of quick_term_or_rec (HeadTape, compare_take, aligns_with, reset schedule) with the real code on normal-form programs and a limit ladder; 'recur' verdicts confirmed by an independent brute-force translated-cycle certificate on L0 cells, 'spinout'/'undefined' by the L0 run. Proof level pending BB/Props/C07.",
-            "Trusted: Lean compiler for the driver and oracle, vlib orchestration, rustc.",
-            "Lean 4 model + differential correspondence + L0 certificate search", "5/C07"),
+    "C04": ("proof",
+            "Lean theorems (BB/Props/C04.lean) about the model of the whole of reason.rs cant_reach: targets cover every halt / erase / spin-out configuration, one backward step is a sound predecessor filter (backstep_sound), the initial configuration is detected, and for the REPAIRED algorithm (model switches fixF1 = fixF2 = true) a 'refuted' answer at ANY depth means the event never happens, for every program without shadowed duplicate keys (cant_halt_sound, cant_blank_sound, cant_spin_out_sound; the blank-state pruning is justified by determinism). The real code equals the UNREPAIRED model (correspondence on every run) and is genuinely unsound through findings F1 and F2: Lean witnesses cant_halt_F1_witness / cant_halt_F2_witness, replayed on the real code, listed in known_findings.json; every contradicted refutation found by the L0 oracle is attributed by counterfactual re-run of the model with the repair switches, anything not explained is a VIOLATION.",
+            "Trusted: Lean kernel + propext/Classical.choice/Quot.sound (audited by #print axioms on every run); the hand-written L1 model to the extent the correspondence check samples it; Lean compiler for the driver and oracle; vlib orchestration; rustc. The soundness theorems are about the repaired model; for the code as it is the property is false (F1, F2). Oracle budget 5e3 (quick) / 5e4 (thorough) base steps.",
+            "Lean 4 proof (abstract-interpretation soundness, gamma concretisation) + differential correspondence + L0 oracle + counterfactual attribution", "5/C04"),
+    "C05": ("proof",
+            "Lean theorems (BB/Props/C05.lean) about the model of segment.rs for ALL programs, params and segment limits: a 'halt' / 'blank' / 'spinout' verdict means the machine does that (init-exact configurations are real configurations), 'repeat' means it never halts, 'refuted' for halt and spin-out means the event never happens provided the table size passed covers every state and colour the program mentions (decidable paramsCover); the blank goal is never refuted at all (seg_blank_never_refuted). The string wrapper infers the size from defined keys only (finding F2): seg_cant_halt_F2_witness, and py_segment_fixed_sound for the repaired wrapper. Model tied to the real wrapper and trait API by correspondence; every verdict of the real code judged by an L0 run; contradicted wrapper verdicts attributed to F2 by the model's repair switch.",
+            "Trusted: Lean kernel + propext/Classical.choice/Quot.sound (audited by #print axioms on every run); the hand-written L1 model to the extent the correspondence check samples it; Lean compiler for the driver and oracle; vlib orchestration; rustc. Oracle budget 5e3/5e4 steps (positive verdicts not seen are re-run with 3e6).",
+            "Lean 4 proof (simulation of the real run through every window placement) + differential correspondence + L0 oracle", "5/C05"),
+    "C06": ("proof",
+            "Lean theorems (BB/Props/C06.lean) about the model of cps.rs for ALL programs, radii, loop/depth limits and iteration orders that neither drop nor invent configurations: a true answer yields a closed triple (cps_true_closed), a closed triple covers the local view of every reachable configuration (closed_sound), hence 'cannot halt / blank / spin out' = true means the event never happens; cps_cant_halt needs the table size to cover the program (paramsCover) because of finding F2 (cps_cant_halt_F2_witness; unconditional for the repaired switch). Tied to the real py_cps_* by correspondence of the Boolean; every 'true' judged by an L0 run; contradictions attributed to F2.",
+            "Trusted: Lean kernel + propext/Classical.choice/Quot.sound (audited by #print axioms on every run); the hand-written L1 model to the extent the correspondence check samples it; Lean compiler for the driver and oracle; vlib orchestration; rustc. cps.rs iterates a HashSet: the model takes the order as a parameter, the theorems hold for every order (OrderOK), only the Boolean is compared.",
+            "Lean 4 proof (closed set => invariant of the real run) + differential correspondence + L0 oracle", "5/C06"),
+    "C07": ("proof",
+            "Lean theorems (BB/Props/C07.lean) for ALL normal-form programs and ALL cycle limits: 'undefined(slot)' means the machine halts exactly there, 'spinout' means it spins out, 'recur' means its slot sequence is eventually periodic, it never halts and never spins out (Lin-recurrence on the positional view). Model of quick_term_or_rec (HeadTape, compare_take, aligns_with, reset schedule) tied to the real code by correspondence on a limit ladder; 'recur' verdicts of the real code additionally confirmed by an independent brute-force translated-cycle certificate on L0 cells.",
+            "Trusted: Lean kernel + propext/Classical.choice/Quot.sound (audited by #print axioms on every run); the hand-written L1 model to the extent the correspondence check samples it; Lean compiler for the driver and oracle; vlib orchestration; rustc.",
+            "Lean 4 proof (Lin recurrence) + differential correspondence + L0 certificate search", "5/C07"),
+    "C08": ("proof",
+            "Lean theorems (BB/Props/C08.lean) for ALL base programs closed under their params, ALL block sizes k >= 1: a defined macro instruction is n >= 1 base steps inside the k-cell window ending with the exit on the stated side in the stated state with the decoded new block (block_instr_some); a macro slot is undefined exactly when the base machine halts inside the window or never leaves it (block_instr_none; the code's sim_lim equals the number of window configurations, pigeonhole proved by hand); never an error; hence every macro configuration reached from the blank tape decodes to a base configuration reached at strictly increasing step counts (block_macro_sim). The stateful object equals this pure function by C16. Tied to the real make_block_macro by correspondence of whole macro runs; every real macro configuration decoded and matched, in order, on the L0 trajectory.",
+            "Trusted: Lean kernel + propext/Classical.choice/Quot.sound (audited by #print axioms on every run); the hand-written L1 model to the extent the correspondence check samples it; Lean compiler for the driver and oracle; vlib orchestration; rustc. closedB (the program prints only colours / enters only states below params) is a hypothesis; callers passing smaller params are outside the theorems.",
+            "Lean 4 proof (simulation: one macro step = >= 1 base steps) + differential correspondence + L0 trajectory matching", "5/C08"),
+    "C09": ("proof",
+            "Lean theorems (BB/Props/C09.lean) for the backsymbol macro with the split index REPAIRED (model switch fixF3): defined instruction = run inside the (k+1)-cell window (backsym_instr_some_fixF3), macro run decodes to the base run with the tape mirrored (backsym_macro_sim_fixF3), never an error; 'undefined <=> halts inside or never leaves' is proved in full for k <= 1 (the only size the repository uses) and in one direction plus a weak converse for every k, because the code's sim_lim is smaller than the number of window configurations for k >= 2 (backsym_simLim_short; no wrongly undefined slot was found by search). PARTIAL in that sense. The real code has finding F3 (split_at(cells-1)): backsym_F3_witness and backsym_instr_some_F3_counterexample; real macro runs that leave the base trajectory are attributed to F3 by re-judging the repaired model's run.",
+            "Trusted: Lean kernel + propext/Classical.choice/Quot.sound (audited by #print axioms on every run); the hand-written L1 model to the extent the correspondence check samples it; Lean compiler for the driver and oracle; vlib orchestration; rustc. For the code as it is the property is false (F3, known finding).",
+            "Lean 4 proof (simulation, repaired model) + differential correspondence + L0 trajectory matching + counterfactual attribution", "5/C09"),
+    "C11": ("proof",
+            "Lean theorems (BB/Props/C11.lean), all counts, any number of blocks, all i32 differences: calculate_diff's additive answer reproduces the four counts exactly and is given iff they are such a progression (no 2^31 guard), make_rule's entries reproduce all four vectors and absent entries mean constant counts, count_apps returns the LARGEST number of applications keeping every decreasing block >= 1 (count_apps_largest, ties to the first in map order), apply_rule changes every named block by exactly difference x times and nothing else, keeps every block >= 1, and leaves the tape untouched when it returns None; exact panic characterisation. Model tied to the real rules.rs (after the three fix: commits F4-F6) by correspondence on exhaustive small and seeded extreme cases incl. the tape after a None; an independent big-integer oracle judges the real answers.",
+            "Trusted: Lean kernel + propext/Classical.choice/Quot.sound (audited by #print axioms on every run); the hand-written L1 model to the extent the correspondence check samples it; Lean compiler for the driver and oracle; vlib orchestration; rustc. Hypothesis (keys rule).Nodup holds for every BTreeMap.",
+            "Lean 4 proof (arithmetic laws) + differential correspondence + integer oracle", "5/C11"),
+    "C14": ("proof",
+            "Lean theorems (BB/Props/C14.lean) for ALL programs whose instructions mention only states < n: is_connected never panics, 'false' means some state has no exit to another state or the last state cannot reach state 0 (isConnected_false_cause), hence for n >= 2 the graph is not strongly connected and no machine using all its states forever is lost; the bounded search never runs out of fuel early; 'true' is characterised exactly, and for walk-generated (tree) programs true <=> strongly connected. For n = 1 the answer is always false (the single state has no way out, the property's own gloss; isConnected_one_state). Tied to the real py_is_connected by correspondence on every edge set on <= 3 states, sampled/all on 4, random on 5-6 and real tree leaves; transitive-closure oracle in the orchestrator.",
+            "Trusted: Lean kernel + propext/Classical.choice/Quot.sound (audited by #print axioms on every run); the hand-written L1 model to the extent the correspondence check samples it; Lean compiler for the driver and oracle; vlib orchestration; rustc.",
+            "Lean 4 proof (graph search invariant) + differential correspondence + transitive-closure oracle", "5/C14"),
+    "C15": ("proof",
+            "Lean theorems (BB/Props/C15.lean) for ALL programs and ALL l1 <= l2: backward reasoner (every answer except step_limit, incl. the same refuted k and incl. errors), segment analysis (every answer except segment_limit), CPS (true stays true; every outcome except false under rad >= 2) and quick recurrence (every answer except limit) are unchanged by a larger limit; inner fuels are shown not to depend on the limit. Only the entry assertions (segs < 2, rad <= 1) change from panic to an answer (counterexample theorems). Tied to the real code by correspondence on whole limit ladders; the real answers at consecutive limits are compared pairwise.",
+            "Trusted: Lean kernel + propext/Classical.choice/Quot.sound (audited by #print axioms on every run); the hand-written L1 model to the extent the correspondence check samples it; Lean compiler for the driver and oracle; vlib orchestration; rustc.",
+            "Lean 4 proof (fuel monotonicity) + differential correspondence on ladders + pairwise oracle", "5/C15"),
+    "C16": ("proof",
+            "Lean theorems (BB/Props/C16.lean): an invariant (memo within the graph of the pure instruction function, both colour caches within the positional encode/decode graph) holds initially and after every get_instr; for EVERY legal query sequence (each colour handed out before it is used; the illegal case is proved to panic) every answer of a fresh block macro equals the pure function of the slot - hence order, repetition and other objects are irrelevant - and every colour handed out decodes to the cells that produced it; lifted to nested macros built with the inner macro's own params. For the backsymbol macro this is proved with the split index repaired (fixF3) and refuted for the code as it is (get_instr_history_dependent_F3_witness = finding F3). Tied to the real objects by correspondence on run-order, repeated, permuted, interleaved two-object and single-slot query sequences; every real answer compared with the run-order answer.",
+            "Trusted: Lean kernel + propext/Classical.choice/Quot.sound (audited by #print axioms on every run); the hand-written L1 model to the extent the correspondence check samples it; Lean compiler for the driver and oracle; vlib orchestration; rustc. Hypotheses: the table prints only colours below base_colors; nesting with macroColors(inner) <= baseColors(outer) (witness theorems show both are necessary: callers passing other params get history-dependent objects).",
+            "Lean 4 proof (invariant by induction over query sequences) + differential correspondence + cross-history oracle", "5/C16"),
+    "C17": ("proof",
+            "Step clause, proved (BB/Props/C17.lean): the model of tm/tape.py Tape.step equals the model of Rust Tape::step on every tape without zero-count blocks, for every direction / colour / skip flag, hence on every history from the blank tape (py_run_eq), with the exact characterisation of where they differ on tapes stepping cannot reach (py_step_eq_iff). Run clause, NOT proved (partial): decided by three-way correspondence - real Rust run_prover, real Python Machine.run (CPython 3.12, extension rebuilt from /repo) and the Lean models - on tree leaves 2x2..4x2/2x4 and the named machines with the property's own exclusions (declared limits, non-additive Python rules) counted.",
+            "Trusted: Lean kernel + propext/Classical.choice/Quot.sound (audited by #print axioms on every run); the hand-written L1 model to the extent the correspondence check samples it; Lean compiler for the driver and oracle; vlib orchestration; rustc; CPython 3.12.1; the release-profile extension wraps u64 silently (finding F9), detected through the overflow-checked harness run of the same program.",
+            "Lean 4 proof (step clause) + three-way differential correspondence (run clause)", "5/C17"),
+    "C18": ("translation_validation",
+            "Translator + proof for the literal tables: tools/extract_num.py re-reads every residue table / special case of Exp.__mod__ and exp_mod_special_cases from tm/num.py on every run and emits one Lean theorem each (BB/Generated/NumTables.lean, 854 obligations, periodicity lemma + decide over one period), so a wrong table entry is a failed proof naming the entry (this is how F7/F8 were found; both repaired by fix: commits). The algebra itself is validated per answer: seeded expression trees built through num.py's own operators, every returned value judged by the Lean evaluator (BB/Model/NumEval.lean); wrong answers are keyed by the num.py return site; the 314 listed sites (comparison heuristics, Num.__eq__ identity, Div on inexact operands) are known findings, any other site is a VIOLATION. The unbounded algebraic claim is not proved.",
+            "Trusted: Lean kernel + propext/Classical.choice/Quot.sound (audited by #print axioms on every run); the hand-written L1 model to the extent the correspondence check samples it; Lean compiler for the driver and oracle; vlib orchestration; rustc; CPython 3.12.1; tools/extract_num.py (translator) and tools/num_harness.py.",
+            "Lean 4 proofs of translator-extracted tables + per-answer validation by a Lean evaluator", "5/C18"),
 }
 
 ALL = ["C%02d" % i for i in range(1, 19)]
